@@ -271,6 +271,16 @@ def main(tier, replay=None):
             q = {k: v for k, v in b.items() if k not in ("max_score", "file")}
             for s in ((0, 1, 2) if tier == "thorough" else (0,)):
                 run_source({"kind": "gen", "params": dict(q, seed=s)}, rep)
+    grid = 0
+    for H in range(3, 9 if tier == "quick" else 13):
+        for S in (1, 2, 3):
+            for O in (1, 2, 3):
+                for uniform in (False, True):
+                    for sd in (0, 1):
+                        run_source({"kind": "gen", "params": dict(num_hosts=H, num_services=S, num_os=O, num_processes=2, uniform=uniform,
+                                                                  restrictiveness=1 + (H + S + O) % 3, seed=sd)}, rep)
+                        grid += 1
+    rep.extra["exhaustive_grid_parameter_sets"] = grid
     nshards = 16 if tier == "thorough" else 8
     total = 16 * 2500 if tier == "thorough" else 4000
     for part in engine.run_shards(_shard, nshards, common.verif_seed(), tier=tier, n_cases=total // nshards):
